@@ -62,7 +62,9 @@ def gen_instance(rng, tier, kind=None):
         cs = [(l, r, g * k) for l, r, g in cs]
         if wstyle in ("one", "mixed"):
             ws = [w * rng.choice([1e10, 1e8]) for w in ws]
-    elif rng.random() < 0.05:
+    elif kind == "chain" and rng.random() < 0.3:
+        # (chains only: with duplicated or redundant constraints inside a block the unchanged solver loops for ever from offsets of about 1e6 on,
+        # where the rounding noise of a slack exceeds ZERO_UPPERBOUND — known finding F6)
         # targets far from the origin that conflict by little (raw timestamps: 1.7e9 s with events a few hundredths apart), modest weights: a
         # tolerance that grows with the magnitude of the positions would swallow such conflicts.  (Stiff variables are left out here: with
         # weights of 1e10 at such offsets the unchanged solver oscillates — known finding F5.)
@@ -364,9 +366,45 @@ def f5_probe(known, rep):
     return "solve() does not end, and the costs of successive passes are not a 2-cycle of rounding noise: %r" % (tail[:6],), inst
 
 
+def f6_probe(known, rep):
+    """known finding F6: does satisfy() still loop for ever on the listed instance, and is what it keeps 'repairing' rounding noise?"""
+    import math
+    inst = dict(known["example"], s=[1] * len(known["example"]["d"]))
+    vpsc, vs, cs = build(inst, False)
+    solver = vpsc.Solver(vs, cs)
+    signal.signal(signal.SIGALRM, _alarm)
+    signal.alarm(3)
+    try:
+        try:
+            solver.solve()
+            return None, inst
+        finally:
+            signal.alarm(0)
+    except Timeout:
+        pass
+    # interrupted inside the loop: every constraint must hold up to the resolution of the positions (a few ulps) — the loop is chasing noise
+    worst = 0.0
+    for c in cs:
+        res = 8 * math.ulp(max(abs(c.left.position()), abs(c.right.position()), 1.0))
+        viol = c.gap - (c.right.position() - c.left.position())
+        if viol > res:
+            return "solve() does not end and a constraint is violated by %r, more than rounding noise (%r)" % (viol, res), inst
+        worst = max(worst, viol)
+    if len(solver.inactive) <= 10 * len(cs):
+        return "solve() does not end, but not in the split-and-merge loop of satisfy() (Solver.inactive has not grown)", inst
+    rep.count("F6-noise-below-zero-upperbound")
+    return "known", inst
+
+
 def body(tier, seed, rep, only_prop=False, scale=1):
     rng = rng_for(seed, "c05")
     known = {k["id"]: k for k in load_known()["known"] if k["property"] == "C05"}
+    if "F6" in known:
+        what, inst6 = f6_probe(known["F6"], rep)
+        if what == "known":
+            rep.known_seen["F6"] = known["F6"]["message"]
+        elif what is not None:
+            rep.prop_fail.append(("C05 (termination): " + what, {"case": {"inst": inst6, "kind": "f6-probe"}}))
     if "F5" in known:
         what, inst5 = f5_probe(known["F5"], rep)
         if what == "known":
